@@ -323,7 +323,7 @@ def parseSortOpts : List Bytes → SortOpts → Except Err SortOpts
       | [] => .error Msgs.SYNTAX_ERROR_MSG
     else if casematch a "by" && rest.length ≥ 1 then
       match rest with
-      | x :: rest' => parseSortOpts rest' { o with sortby := some x, dontsort := if x.contains 42 then o.dontsort else true }
+      | x :: rest' => parseSortOpts rest' { o with sortby := some x, dontsort := !x.contains 42 }
       | [] => .error Msgs.SYNTAX_ERROR_MSG
     else if casematch a "get" && rest.length ≥ 1 then
       match rest with
@@ -415,7 +415,7 @@ def sortCmd (c : Nat) (d : Nat) (args : List Arg) (cis : List CI) : M (Except Er
                 pure (.ok (s.map Prod.snd))
           else
             match key.val with
-            | some (.list _) | some (.zset _) => pure (.ok items.reverse)
+            | some (.list _) | some (.zset _) => pure (.ok (if o.desc then items.reverse else items))
             | _ => pure (.ok items)
         match sorted? with
         | .error e => return .error e
